@@ -652,7 +652,7 @@ def hardfork_family(ctx, st):
         k = rng.randrange(6)
         if k == 1:
             i = rng.randrange(4)
-            db["V%d" % (i + 2)] = max(0, cfg[i] + rng.choice([-1, 1, -50, 50]))
+            db["V%d" % (i + 2)] = min(2 ** 64 - 1, max(0, cfg[i] + rng.choice([-1, 1, -50, 50])))
         elif k == 2:
             del db["V%d" % rng.randrange(2, 6)]
         elif k == 3:
@@ -833,7 +833,104 @@ def txroot_family(ctx, st):
     st.rules.append("tx root: CalculateTxsRootHash over random tx lists of each size (Hash fields = CalculateTxHash)")
 
 
-EXTRA_FAMILIES = [receipts_family, merkle_family, hardfork_family, txsign_family, chainid_family, txroot_family]
+# ------------------------------------------------------------------ corpus (hand-written edge cases, run first)
+def header_from_json(j):
+    inv = {v: k for k, v in HJ.items()}
+    return {inv[k]: (v if inv[k] in HINT else hb(v)) for k, v in j.items() if k in inv}
+
+
+def corpus_family(ctx, st):
+    d = os.path.join(vf.VERIF, "corpus", "C19")
+    cases = []
+    if os.path.isdir(d):
+        for fn in sorted(os.listdir(d)):
+            if fn.endswith(".json"):
+                cases += json.load(open(os.path.join(d, fn)))
+    if not cases:
+        return
+    eng = [{k: v for k, v in c.items() if k != "why"} for c in cases]
+    obs = run_engine(ctx, st.types_bin, "TestVerifCodecEngine", eng, "corpus")
+    hi, hs, ti, ts, ri, rs, ci, cs, cri, crs = [], [], [], [], [], [], [], [], [], []
+    for c, o in zip(cases, obs):
+        src = {"why": c.get("why"), "case": c, "obs": {k: (v if not isinstance(v, str) or len(v) < 160 else v[:160] + "...") for k, v in o.items()}}
+        if c["kind"] == "H":
+            h = header_from_json(c["h"])
+            hi.append("(%s, %s, %s)" % (coq_header(h), cb(hb(o["full"])), cb(hb(o["nosign"]))))
+            hs.append(src)
+        elif c["kind"] == "T":
+            t = {f: (c["t"][f] if f in TINT else hb(c["t"][f])) for f in TX_FIELDS}
+            ti.append("(%s, %s)" % (coq_tx(t), cb(hb(o["hash"]))))
+            ts.append(src)
+        elif c["kind"] == "R":
+            r = receipt_from_json(c["r"])
+
+            def dec(key):
+                if key in o and o.get(key + "_rest_ok"):
+                    return "(Some %s)" % coq_receipt(receipt_from_json(o[key]))
+                return "None"
+            ri.append("(%s, (%s, %s, %s, %s), (%s, %s))" % (coq_receipt(r), opt_coq_bytes(o.get("s1")), opt_coq_bytes(o.get("s2")),
+                                                          opt_coq_bytes(o.get("m1")), opt_coq_bytes(o.get("m2")), dec("d1"), dec("d2")))
+            rs.append(src)
+        elif c["kind"] == "C":
+            x = c["cid"]
+            cid = {"v": x["Version"], "p": x["Public"], "m": x["Main"], "magic": hb(x["Magic"]), "cons": hb(x["Consensus"])}
+            dt = "None"
+            if "dec" in o:
+                dd = o["dec"]
+                dt = "(Some (%d, %s, %s, %s, %s))" % (dd["Version"] % 2 ** 32, cbool(dd["Public"]), cbool(dd["Main"]), cb(hb(dd["Magic"])), cb(hb(dd["Consensus"])))
+            ci.append("(%s, %s, %s)" % (coq_cid(cid), cb(hb(o["enc"])), dt))
+            cs.append(src)
+        elif c["kind"] == "CR":
+            dt = "None"
+            if "dec" in o:
+                dd = o["dec"]
+                dt = "(Some (%d, %s, %s, %s, %s))" % (dd["Version"] % 2 ** 32, cbool(dd["Public"]), cbool(dd["Main"]), cb(hb(dd["Magic"])), cb(hb(dd["Consensus"])))
+            cri.append("(%s, %s)" % (cb(hb(c["raw"])), dt))
+            crs.append(src)
+        st.nontrivial.add(("corpus", c.get("why")))
+    st.add_family("corpus_headers", "header * bytes * bytes", "header_case_ok", hi, hs)
+    st.add_family("corpus_txs", "txbody * bytes", "(fun c : txbody * bytes => let '(t, d) := c in bytes_eqb (tx_hash sha256 t) d)", ti, ts)
+    st.add_family("corpus_receipts", "receipt * (option bytes * option bytes * option bytes * option bytes) * (option receipt * option receipt)",
+                  "receipt_case_ok", ri, rs)
+    st.add_family("corpus_chain_id", "(N * bool * bool * bytes * bytes) * bytes * option (N * bool * bool * bytes * bytes)", "chain_id_case_ok", ci, cs)
+    st.add_family("corpus_chain_id_read", "bytes * option (N * bool * bool * bytes * bytes)", "chain_id_read_case_ok", cri, crs)
+    st.rules.append("corpus: corpus/C19/*.json hand-written edge cases (each with its reason), compared with the model first")
+
+
+# ------------------------------------------------------------------ genesis info (gob; observed, not modelled)
+def genesis_family(ctx, st):
+    rng = ctx.rng
+    quick = ctx.tier == "quick"
+    cases = []
+    alpha = "abcdefghijklmnopqrstuvwxyz./0123456789"
+    for i in range(12 if quick else 300):
+        cid = {"Version": rng.choice([0, 1, 2, 3, -1, 2 ** 31 - 1]), "Public": rng.random() < 0.5, "Main": rng.random() < 0.5,
+               "Magic": "".join(rng.choice(alpha) for _ in range(rng.randrange(0, 10))).encode().hex(),
+               "Consensus": rng.choice(["dpos", "raft", "sbp", "", "a/b"]).encode().hex()}
+        g = {"Cid": cid, "Timestamp": rng.choice([0, 1, -1, 2 ** 63 - 1, -2 ** 63, rng.randrange(0, 2 ** 62)]),
+             "BPs": ["bp%d" % k for k in range(rng.randrange(0, 5))],
+             "EBPs": [["n%d" % k, "/ip4/1.2.3.%d/tcp/7846" % k, "16Uiu2%d" % k] for k in range(rng.choice([0, 0, 1, 3]))],
+             "Balance": {"acc%d" % k: str(rng.randrange(0, 10 ** 20)) for k in range(rng.randrange(0, 3))}}
+        cases.append({"kind": "G", "g": g})
+    obs = run_engine(ctx, st.types_bin, "TestVerifCodecEngine", cases, "genesis")
+    for c, o in zip(cases, obs):
+        g, d = c["g"], o.get("dec")
+        st.nontrivial.add(("G", len(g["BPs"]), len(g["EBPs"]), bool(g["Balance"])))
+        if d is None:
+            st.fail("C19:genesis-roundtrip", "GetGenesisFromBytes(Genesis.Bytes()) failed", {"case": c, "obs": o})
+            continue
+        if (d["Cid"], d["Timestamp"], d["BPs"], d["EBPs"]) != (g["Cid"], g["Timestamp"], g["BPs"], g["EBPs"]):
+            st.fail("C19:genesis-roundtrip", "genesis info read back differs from what was written (chain id, timestamp, BPs, enterprise BPs)",
+                    {"case": c, "obs": o})
+        if not o.get("orig_balance_kept"):
+            st.fail("C19:genesis-bytes-mutates", "Genesis.Bytes() modified the receiver's Balance", {"case": c})
+    st.evals += len(cases)
+    st.dist["genesis_roundtrip_observed"] = len(cases)
+    st.rules.append("genesis: random Genesis values through Genesis.Bytes/GetGenesisFromBytes (gob is opaque: direct predicate only; "
+                    "Balance is omitted from the stored form by design)")
+
+
+EXTRA_FAMILIES = [corpus_family, receipts_family, merkle_family, hardfork_family, txsign_family, chainid_family, txroot_family, genesis_family]
 EXTRA_TARGETS = ["Common/Sha256.vo", "Common/Lit.vo", "Codec/Receipt.vo", "Codec/Merkle.vo", "Codec/Hardfork.vo", "Codec/TxRoot.vo"]  # evaluated models that no theorem depends on
 
 IMPORTS = """From Coq Require Import NArith ZArith List Bool String Uint63.
@@ -846,6 +943,11 @@ EXTRA_IMPORTS = []
 
 def evaluate_model(ctx, st, shard=1200):
     """One or more generated .v files; every family prints its own mismatch list."""
+    d = os.path.join(ctx.workdir, "coq")
+    if os.path.isdir(d):
+        for fn in os.listdir(d):          # stale shards of a previous (larger) run
+            if re.match(r"\.?cases\d+\.", fn):
+                os.remove(os.path.join(d, fn))
     files, cur, cur_n = [], [], 0
     for fam in st.fams:
         name, typ, ok, items, src, pre = fam
